@@ -20,7 +20,8 @@ def expr_tr(util, env):
     return Tr(mod, 'frag', dict(params=env, toplevel=True))
 
 
-def generate(solver_tree, util):
+def generate(solver_tree, util, trees=None):
+    trees = trees or {'solver': solver_tree}
     solve = find_func(solver_tree, 'solve')
     out = [HEADER]
     # (1) the objective wrapper:  objfun = lambda x, *args: objfun_orig(<E>, *args)
@@ -65,5 +66,75 @@ def generate(solver_tree, util):
     out.append('Definition py_solver_push_x0 (l_x0 : vec) (l_xl : vec) (l_xu : vec) : vec :=\n'
                'let l_x0 := vmap2 (fun x_ l_ => if lt x_ l_ then l_ else x_) l_x0 l_xl in\n'
                'vmap2 (fun x_ u_ => if lt u_ x_ then u_ else x_) l_x0 l_xu.\n')
+    rad, idx = gen_radius(trees, util)
+    out.append(rad)
     out.append('End Gen.')
+    out.append(idx)
     return '\n'.join(out)
+
+
+# ------------------------------------------------------------------------------------------------ radius write sites (C18)
+class _Norm(ast.NodeTransformer):
+    """control.X / self.X -> X ; params('a.b') -> p_a_b ; sqrt(e) -> np.sqrt(e)"""
+
+    def visit_Attribute(self, n):
+        if isinstance(n.value, ast.Name) and n.value.id in ('control', 'self'):
+            return ast.copy_location(ast.Name(id=n.attr, ctx=ast.Load()), n)
+        return self.generic_visit(n)
+
+    def visit_Call(self, n):
+        if isinstance(n.func, ast.Name) and n.func.id == 'params' and len(n.args) == 1 and isinstance(n.args[0], ast.Constant):
+            return ast.copy_location(ast.Name(id='p_' + n.args[0].value.replace('.', '_'), ctx=ast.Load()), n)
+        n = self.generic_visit(n)
+        if isinstance(n.func, ast.Name) and n.func.id == 'sqrt':
+            n.func = ast.Attribute(value=ast.Name(id='np', ctx=ast.Load()), attr='sqrt', ctx=ast.Load())
+        return n
+
+
+RADIUS_FUNCS = {('solver', 'solve_main'), ('controller', 'Controller.check_and_fix_geometry'), ('controller', 'Controller.soft_restart'),
+                ('controller', 'Controller.__init__')}
+
+
+def radius_sites(trees):
+    """yield (file, qualname, target, ordinal, expr) for every assignment to delta/rho/rhoend (attribute or the loop-local rhoend)"""
+    for fname, tree in trees.items():
+        funcs = []
+        for n in tree.body:
+            if isinstance(n, ast.FunctionDef):
+                funcs.append((n.name, n))
+            elif isinstance(n, ast.ClassDef):
+                funcs += [(n.name + '.' + k.name, k) for k in n.body if isinstance(k, ast.FunctionDef)]
+        for qual, fn in funcs:
+            ords = {}
+            for s in ast.walk(fn):
+                if isinstance(s, ast.Assign) and len(s.targets) == 1:
+                    t = s.targets[0]
+                    nm = None
+                    if isinstance(t, ast.Attribute) and isinstance(t.value, ast.Name) and t.value.id in ('control', 'self') and t.attr in ('delta', 'rho', 'rhoend'):
+                        nm = t.attr
+                    elif isinstance(t, ast.Name) and t.id == 'rhoend' and qual in ('solve_main', 'solve'):
+                        nm = 'rhoend'
+                    if nm is not None:
+                        yield fname, qual, nm, s.lineno, s.value
+
+
+def gen_radius(trees, util):
+    sites = sorted(radius_sites(trees), key=lambda t: (t[0], t[1], t[3]))
+    out = []
+    counts = {}
+    index = []
+    for fname, qual, nm, line, expr in sites:
+        if (fname, qual) == ('controller', 'Controller.reduce_rho'):
+            continue        # translated as a whole function (py_controller_reduce_rho)
+        k = (fname, qual, nm)
+        counts[k] = counts.get(k, -1) + 1
+        e2 = _Norm().visit(ast.parse(ast.unparse(expr), mode='eval').body)
+        names = sorted({x.id for x in ast.walk(e2) if isinstance(x, ast.Name) and x.id not in ('np', 'max', 'min')})
+        tr = expr_tr(util, {x: 'T' for x in names})
+        txt, _ = tr.e(e2, want='T')
+        cname = 'py_rad_%s_%s_%s_%d' % (fname, qual.replace('.', '_').replace('__', ''), nm, counts[k])
+        out.append('Definition %s %s : T :=\n%s.\n' % (cname, ' '.join('(l_%s : T)' % x for x in names), tr.finish(txt)))
+        index.append((fname, qual, nm, counts[k], cname, names))
+    idx = 'Definition radius_site_index : list (string * string * string * Z * list string) := [\n' + ';\n'.join(
+        '  ("%s"%%string, "%s"%%string, "%s"%%string, %d, [%s])' % (f, q_, n_, o, '; '.join('"%s"%%string' % x for x in names)) for (f, q_, n_, o, c, names) in index) + '].\n'
+    return '\n'.join(out) + '\n', idx
